@@ -287,7 +287,7 @@ fn edited_conf(t: &mut Tape, labels: &mut Vec<String>) -> (Vec<u8>, Vec<Rdh>) {
 
 fn gen_input(t: &mut Tape, labels: &mut Vec<String>) -> (Vec<u8>, Vec<Rdh>) {
     let mut g = t.fork(16);
-    match g.weighted(&[10, 2, 3, 2]) {
+    match g.weighted(&[8, 2, 3, 5]) {
         0 => {
             labels.push("input:mutated_conf".into());
             edited_conf(t, labels)
